@@ -280,6 +280,17 @@ def run_case(case, env):
                                         "accepted document %s: the constant attached value %d (a QLayout.* stretch / minimum binding) is in neither output: <layout> elements are\n%s"
                                         % (s, m, "\n".join(l.strip() for l in text.splitlines() if "<layout" in l)[:600])))
             if res.exit_status == 0:
+                # every object has a name of its own in the .ui: the header addresses objects by name, so code generated for
+                # the later of two namesakes would run on the earlier
+                for p in sorted(relpred):
+                    if p.endswith(".ui"):
+                        names = re.findall(r"<(?:widget|layout|spacer|action)\b[^>]*\bname=\"([^\"]*)\"", (after.content(p) or b"").decode("utf-8", "replace"))
+                        _bump(probes, "object_names_compared", len(names))
+                        dup = sorted(set(n for n in names if names.count(n) > 1))
+                        if dup:
+                            vs.append(V("accepted-takes-effect", "c04:binding-addresses-a-namesake",
+                                        "accepted, but %s names two objects %s: bindings and handlers written for the later one are generated against the earlier" % (p, dup)))
+            if res.exit_status == 0:
                 # a role bound on the palette itself takes effect in each of the three colour groups (none of the explicit
                 # groups of these documents binds it)
                 for s, pd in sorted(step.get("palette_defaults", {}).items()):
